@@ -90,10 +90,17 @@ def run(tier):
     exe, qs, ks = B.build()
     mc = C.run_tlc('MC_Store', 'MC_Store_3.cfg', workers=8, timeout=900)
     chk.add_tlc('MC_Store(BFS small scope, vector shape)', mc)
-    mc1 = C.run_tlc('MC_Store', 'MC_Store_1.cfg', workers=8, timeout=900)
+    mc1 = C.run_tlc('MC_Store', 'MC_Store_1.cfg', workers=8, timeout=900, coverage=True)
     chk.add_tlc('MC_Store(BFS small scope, scalar shape)', mc1)
     if not (mc.ok and mc1.ok):
         raise C.ToolError('MC_Store failed:\n' + (mc.out + mc1.out)[-2000:])
+    # vacuity guard (-coverage 1): every action of the register machine was taken in the bounded model
+    expected_actions = ['Construct', 'Zero', 'CopyConstruct', 'Assign', 'MoveFrom', 'ConstructIn', 'CreateIn', 'ReadIn', 'Add', 'Sub', 'MulN', 'NMul', 'DivN',
+                        'RatioOf', 'AddEq', 'SubEq', 'MulEq', 'DivEq', 'SetValue', 'MutableWrite', 'ReadValue', 'Serialize']
+    never = [a for a in expected_actions if mc1.coverage.get(a, (0, 0))[0] == 0]
+    if never:
+        raise C.ToolError(f'vacuous MC_Store run: actions never taken: {never}')
+    chk.layer('A.model', actions_taken={a: mc1.coverage[a][0] for a in expected_actions})
     bs, stats, sims = B.generate_behaviours(400 if not thorough else 4000)
     for (n, caps), r in sorted(sims.items()):
         chk.add_tlc(f'Store simulate ncomp={n} {caps}', r)
